@@ -26,6 +26,14 @@ CLAIMED['C06'] = dict(
     technique=PYVC + '; loop invariant over a nondeterministic recv callee with ghost stream state; socketpair replay',
 )
 
+CLAIMED['C09'] = dict(
+    category='proof',
+    text='Contracts on the real UpdateCollection.messages (IPv4 section and MP section as two segment contracts), MPNLRICollection.packed_reach_attributes / packed_unreach_attributes / _attr_len / _attribute_header, UpdateCollection.prefix / split and Message._message: every yielded UPDATE is at most negotiated.msg_size bytes, carries a consistent length field and both section lengths stay inside it (so split accepts it); every MP attribute is at most the room given, with the RFC 4271 attribute header; ghost byte counters with prefix-sum spec functions prove that no packed NLRI is lost unless it cannot fit even alone; no exception escapes. Linear integer arithmetic, all obligations discharged by z3 for all lengths and list sizes (loop invariants, no unrolling). Bounded complement: the real messages() at sizes straddling 4096/65535 with mixed IPv4/IPv6 unicast/multicast and extended-next-hop routes, decoded by an RFC reference decoder.',
+    note='Segment contracts: the route classification prefix of messages() and the next-hop grouping prefix of packed_reach_attributes are abstracted into arbitrary lists (stated in the evidence notes); those prefixes are covered by the bounded layer only. NLRI encoders are used through an assumed contract (non-empty byte string per NLRI). Completeness is proved on byte counts, not on content.',
+    ref='DESIGN.md §6 C09',
+    technique=PYVC + '; loop invariants + ghost prefix sums over generator code; bounded differential against an RFC reference decoder',
+)
+
 NOT_YET = 'check not built yet in this session (planned in DESIGN.md §6); not claimed until its obligations are discharged'
 NA = {}
 
